@@ -303,12 +303,23 @@ impl<Service: service::Service> ClientSharedState<Service> {
         self.prepare_channel_to_receive_responses(channel_id, request_id);
 
         self.active_request_counter.fetch_add(1, Ordering::Relaxed);
-        Ok(self.request_sender.deliver_offset(
+        match self.request_sender.deliver_offset(
             chunk,
             // All requests are delivered on the same channel, therefore we can use
             // ChannelId::new(0).
             ChannelId::new(0),
-        )?)
+        ) {
+            Ok(number_of_recipients) => Ok(number_of_recipients),
+            Err(e) => {
+                // No PendingResponse is created when the delivery fails, therefore the
+                // request must not be accounted as active request and the response channel
+                // must be closed again - otherwise nobody would ever do it.
+                self.active_request_counter.fetch_sub(1, Ordering::Relaxed);
+                self.response_receiver.close_channel(channel_id, request_id);
+                fail!(from self, with e.into(),
+                    "{} since the request could not be delivered.", msg);
+            }
+        }
     }
 
     pub(crate) fn update_connections(
